@@ -43,7 +43,9 @@ inductive Obj where
 
 /-- Value terms (`pyanalyze.value`). `many t` only occurs as a member of `seq` (an `is_many`
 member, i.e. `*tuple[t, ...]`). `subclass c` is `type[c]`; `newtype n c` a NewType number `n`
-over class `c`; `annotated t` an `Annotated[t, ...]` without extensions. -/
+over class `c`; `annotated t` an `Annotated[t, ...]` without extensions; `tvar i` a `TypeVarValue` (only the
+union/substitution algebra and the type-variable solver look inside; assignability and
+membership treat a free type variable as outside their fragment). -/
 inductive Ty where
   | any
   | known (o : Obj)
@@ -55,6 +57,7 @@ inductive Ty where
   | union (ts : List Ty)
   | subclass (c : Cls)
   | annotated (t : Ty)
+  | tvar (i : Nat)
   deriving Repr, Inhabited
 
 def Ty.never : Ty := .union []
